@@ -20,7 +20,7 @@ BUDGET = {'quick': 900, 'thorough': 3000}
 BOUNDS = {'quick': dict(n=2), 'thorough': dict(n=3)}
 ASSUMPTIONS = [
     'entry names: a typed prefix `f` followed by n fully symbolic characters (every scalar except `/` and NUL), so every special character appears in the completed part; the typed prefix itself is plain (a user types special prefix characters already escaped - that is escaped_word_start\'s domain, C05)',
-    'three contexts (unquoted, open single quote, open double quote) x {file, directory} x {command `prog`, `cd`} x {current directory, `sub/`, a directory part with a blank typed as `a\\ b/` (unquoted) or `a b/` (quoted), a directory part with `$` inside single quotes}',
+    'three contexts (unquoted, open single quote, open double quote) x {file, directory} x {command `prog`, `cd`} x {current directory, `sub/`, a directory part with a blank typed as `a\\ b/` (unquoted) or `a b/` (quoted), a directory part with `$` inside single quotes, a directory part `a"b c` spelled with `\\"` (what an earlier TAB inserts)}',
     'lineread is modelled by its contract (replace [word_start, cursor) by the completion, append blank or `/`); for a directory completed inside quotes the user closes the quote before Enter; the pty, key handling and display are outside',
     'read_dir / is_dir are stubs: the entry under test plus one entry that does not start with the prefix and one directory',
     'reading back: from_line with env stub (no variables set), glob stub: pattern-respecting adversarial directory (a pattern containing `*` also matches the name with the stars removed)',
@@ -31,9 +31,9 @@ def instances(tier, seed):
     for ctx in ('unq', 'sq', 'dq'):
         for kind in ('file', 'dir'):
             for cmd in ('prog', 'cd'):
-                for sub in ('', 'sub', 'a b', 'd$x'):
+                for sub in ('', 'sub', 'a b', 'd$x', 'a"b c'):
                     if cmd == 'cd' and kind == 'file' and sub: continue
-                    if sub in ('a b', 'd$x') and cmd == 'cd': continue
+                    if sub in ('a b', 'd$x', 'a"b c') and cmd == 'cd': continue
                     if sub == 'd$x' and ctx != 'sq': continue          # `$` cannot be spelled unquoted / in double quotes (known findings)
                     out.append(dict(name='%s/%s/%s%s' % (ctx, kind, cmd, '/' + sub.replace(' ', '_') if sub else ''), ctx=ctx, kind=kind, cmd=cmd, sub=sub, _split=5))
     return out
@@ -77,7 +77,11 @@ def body(inst, b):
         install(I, name, inst['kind'], inst['sub'])
         q = {'unq': '', 'sq': "'", 'dq': '"'}[inst['ctx']]
         sub = inst['sub']
-        typed_dir = (sub.replace(' ', '\\ ') if inst['ctx'] == 'unq' else sub) + '/' if sub else ''
+        # the directory part as a user (or an earlier TAB) spells it in this context
+        if inst['ctx'] == 'unq': tdir = sub.replace('"', '\\"').replace(' ', '\\ ')
+        elif inst['ctx'] == 'dq': tdir = sub.replace('"', '\\"')
+        else: tdir = sub
+        typed_dir = tdir + '/' if sub else ''
         typed = list(lit(inst['cmd'] + ' ' + q + typed_dir + 'f'))
         I.h_typed = tuple(typed)
         start = I.call_fn('completers::escaped_word_start', [tuple(typed)])
